@@ -639,7 +639,14 @@ def _dbg(theorems, rule, extra_assumptions=()):
 
 PROPS["C09"] = dict(_dbg(
     ["Lace.C09.debug_transparent", "Lace.C09.iter_nonmut", "Lace.C09.detached_eq_plain",
-     "Lace.C09.nextAction_nonmut", "Lace.DbgProofs.runCommand_nonmut"],
+     "Lace.C09.nextAction_nonmut", "Lace.DbgProofs.runCommand_nonmut",
+     # shared standard input (Props/C09IO.lean, model Model/DebuggerIO.lean)
+     "Lace.C09IO.reader_consumes_exactly", "Lace.C09IO.fetch_consumes_exactly",
+     "Lace.C09IO.fetch_rest_suffix", "Lace.C09IO.quit_hands_over_stdin",
+     "Lace.C09IO.preparsed_agrees", "Lace.C09IO.preparsed_agrees_argument",
+     "Lace.C09IO.debug_transparent_io", "Lace.C09IO.transport_independent_io",
+     "Lace.C09IO.runLoop_sync", "Lace.C09IO.runCommand_frame", "Lace.C09IO.execute_setInp",
+     "Lace.C09IO.readFromLoop_tview"],
     "generated terminating programs (loops, nested JSR/RET and CALL/RETS subroutines, self-modifying stores, traps with "
     "input, all endings incl. exceptions) with random .break directives and labels × random scripts of non-mutating "
     "commands with arbitrary arguments (step, step into k incl. 0 and 65535, step out, continue, break add/remove at "
@@ -649,7 +656,14 @@ PROPS["C09"] = dict(_dbg(
     "(through --command, through standard input, or split across both; `;` or newline separated; aliases, letter "
     "case, number spellings, blank and invalid lines mixed in) and the driver derives the commands from the same text "
     "with the command-language model (Cmd.session) before running the debugger model — the two models are tied "
-    "together end to end, and C14's transport independence is checked at the level of effects. In addition (harness "
+    "together end to end, and C14's transport independence is checked at the level of effects. The MODEL line of a text "
+    "session comes from the debugger model that reads its commands on demand from the shared standard input "
+    "(DbgIO.runLoopIO), the SPECIFICATION line from the pre-parsed model on the bytes that follow the script "
+    "(Lace.C09IO.preparsed_agrees). One text session in three has a program that READS INPUT (GETC/IN): the script "
+    "(inspection and breakpoint commands, rejected and blank lines) is on standard input — or split with --command, or "
+    "wholly in --command — and ends in quit + ONE delimiter (`;` or newline) with the program's input (arbitrary bytes, "
+    "sometimes beginning with a delimiter or more command text) right behind it; a directed corpus of 12 minimal "
+    "hand-over sessions runs first (Lace.C09IO.quit_hands_over_stdin). In addition (harness "
     "id C09P) the real binary is spawned in pairs, `lace debug --command <text script>` vs `lace run`, in --minimal "
     "AND normal output mode, and stdout + exit status must be identical.",
     ["I8: with program input present the script ends the debugger itself (quit/exit), otherwise the debugger would read the program's input as commands",
